@@ -345,6 +345,9 @@ inductive EAct where
   | revoke (credId : String) (e : StatusEntry)
   | serve (issuer : String) (page : Nat)
   | tick (d : Nat)
+  /-- the node's public `url` setting changes (restart with another base URL): pages created earlier keep the subject id
+      they were stored with; `statusListURL` renders new page URLs under the new base -/
+  | rebase (base : String)
 
 def eStep (E : Env) (w : EWorld) : EAct → EWorld
   | .spawn issuer => { w with threads := w.threads ++ [{ issuer := issuer }] }
@@ -359,6 +362,7 @@ def eStep (E : Env) (w : EWorld) : EAct → EWorld
     | .ok (_, n) => { w with node := n }
     | _ => w
   | .tick d => { w with now := w.now + d }
+  | .rebase base => { w with node := { w.node with base := base } }
 
 def eRun (E : Env) (w : EWorld) (acts : List EAct) : EWorld := acts.foldl (eStep E) w
 
